@@ -272,6 +272,23 @@ def frozen_error_bases(ctx, rep: Report, rule: str):
                     n += 1
                     if any(issubclass(b, cls) for b in bases):
                         bad.append((fi, h, ast.unparse(ht)))
+            # (contextlib.suppress regions are swallow-handlers too)
+        for t in walk_own(fi.node):
+            if not isinstance(t, ast.With):
+                continue
+            body_calls = {ast.unparse(c_.func).split(".")[-1] for s in t.body for c_ in ast.walk(s) if isinstance(c_, ast.Call)}
+            if not (body_calls & {"delattr", "setattr", "mutate_attr", "__setattr__", "__delattr__", "invalidate_attrs", "__raw__"}):
+                continue
+            for it in t.items:
+                ce = it.context_expr
+                if isinstance(ce, ast.Call) and ast.unparse(ce.func).split(".")[-1] == "suppress":
+                    for ht in ce.args:
+                        cls = getattr(builtins, ast.unparse(ht), None)
+                        if not isinstance(cls, type):
+                            continue
+                        n += 1
+                        if any(issubclass(b, cls) for b in bases):
+                            bad.append((fi, t, ast.unparse(ht)))
     if n < 2:
         raise AnalysisError(f"{rule}: only {n} swallow-handlers around attribute writes/deletes found (floor 2)")
     rep.oblige(rule, "FrozenInstanceError bases", not bad, "; ".join(f"{_short(f)}: except {t}" for f, _, t in bad[:3]))
@@ -312,7 +329,10 @@ def deepcopy_callers(ctx, rep: Report, rule: str):
     if n < 4:
         raise AnalysisError(f"{rule}: only {n} references to copy.deepcopy found (floor 4)")
     pv = ctx.p.find_function("protect_via_deepcopy")
-    withs = [w for w in walk_own(pv.node) if isinstance(w, ast.With) and any("_modules_copyable" in ast.unparse(i.context_expr) for i in w.items)]
+    guard_names = {a_.targets[0].id for a_ in walk_own(pv.node) if isinstance(a_, ast.Assign) and len(a_.targets) == 1 and isinstance(a_.targets[0], ast.Name)
+                   and isinstance(a_.value, ast.Call) and ast.unparse(a_.value.func).split(".")[-1] == "_modules_copyable"}
+    withs = [w for w in walk_own(pv.node) if isinstance(w, ast.With) and any("_modules_copyable" in ast.unparse(i.context_expr) or
+                                                                              (isinstance(i.context_expr, ast.Name) and i.context_expr.id in guard_names) for i in w.items)]
     inside = {id(x) for w in withs for x in ast.walk(w)}
     outside = [x for x in walk_own(pv.node) if isinstance(x, ast.Attribute) and x.attr == "deepcopy" and id(x) not in inside]
     rep.oblige(rule, "protect_via_deepcopy: deepcopy inside the context", bool(withs) and not outside)
@@ -467,8 +487,16 @@ def parent_ctor_guard(ctx, rep: Report, rule: str):
         raise AnalysisError(f"{rule}: no parent constructor call found in InitMethod.init")
     for f_, c in calls:
         var = c.func.value.id
-        conds = " && ".join(_guards_of(f_.node, c))
-        ok = (f"'__init__' in {var}.__dict__" in conds or f"'__init__' in vars({var})" in conds) and "not ('__init__'" not in conds
+        from .c16 import _guards_full, implies_atom
+        gl = _guards_full(f_.node, c)
+        conds = " && ".join(gl)
+
+        def own_ctor(n_, var=var):
+            if isinstance(n_, ast.Compare) and len(n_.ops) == 1 and isinstance(n_.ops[0], (ast.In, ast.NotIn)) and ast.unparse(n_.left) == "'__init__'" \
+                    and ast.unparse(n_.comparators[0]) in (f"{var}.__dict__", f"vars({var})"):
+                return isinstance(n_.ops[0], ast.In)
+            return None
+        ok = bool(gl) and implies_atom(gl, own_ctor)
         rep.oblige(rule, f"InitMethod.init: {var}.__init__", ok, conds[:120])
         if not ok:
             rep.violate(Violation(rule, f"{rule}|{var}.__init__", f"InitMethod.init calls `{var}.__init__` for every MRO entry that has (possibly inherited) spec-class metadata: a plain class between two spec classes re-runs its parent's generated constructor without the keywords, so `Sub(a=5).a` falls back to the default",
@@ -537,10 +565,24 @@ def missing_default_contradiction(ctx, rep: Report, rule: str):
                 and isinstance(n.value, ast.Name):
             stored[n.targets[0].attr] = n.value.id
     nopt = 0
+    guarded = []
     for n in walk_own(bs.node):
         if isinstance(n, ast.Compare) and isinstance(n.ops[0], (ast.Is, ast.IsNot)) and ast.unparse(n.comparators[0]) == "MISSING" \
                 and isinstance(n.left, ast.Attribute) and ast.unparse(n.left.value) == "self":
-            opt = n.left.attr
+            guarded.append(n.left.attr)
+        # table-driven form: for name in ("key", "frozen", ...): if getattr(self, name) is not MISSING: setattr(metadata, name, ...)
+        if isinstance(n, ast.For) and isinstance(n.target, ast.Name):
+            it = n.iter
+            if isinstance(it, ast.Name):
+                r_ = ctx.p.resolve_global(bs.module, it.id)
+                it = r_[1][1] if r_ and r_[0] == "assign" else it
+            if isinstance(it, (ast.Tuple, ast.List)) and it.elts and all(isinstance(e_, ast.Constant) and isinstance(e_.value, str) for e_ in it.elts):
+                src_ = ast.unparse(n)
+                if f"getattr(self, {n.target.id})" in src_ and "MISSING" in src_ and any(
+                        isinstance(c_, ast.Compare) and isinstance(c_.ops[0], (ast.Is, ast.IsNot)) and ast.unparse(c_.comparators[0]) == "MISSING" for c_ in ast.walk(n)):
+                    guarded += [e_.value for e_ in it.elts]
+    for opt in guarded:
+        if True:
             param = stored.get(opt)
             if param is None or param not in defaults:
                 continue
@@ -592,7 +634,13 @@ def for_class_rule(ctx, rep: Report, rule: str, aspects=("dnc", "attrs", "mro"))
         if "attrs" in aspects and set(r["attrs"][1]) - {FRESH}:
             bad.append(f"the attribute table handed to the new metadata is a parent's own table (`{r['attrs'][0]}`): attributes a subclass adds or overrides leak into the parent and its other subclasses")
         if "mro" in aspects:
+            # `next((c for c in spec_cls.mro()[1:] if ...), None)` is the same nearest-ancestor search as a loop with break
+            next_over_mro = any(isinstance(c_, ast.Call) and ast.unparse(c_.func) == "next" and c_.args and isinstance(c_.args[0], ast.GeneratorExp)
+                                and any((".mro()" in ast.unparse(g_.iter) or "__mro__" in ast.unparse(g_.iter)) for g_ in c_.args[0].generators)
+                                for c_ in ast.walk(fi.node))
             for k in ("frozen", "key", "init_overflow_attr"):
+                if k in r and "builtins.next" in r[k][0] and next_over_mro:
+                    continue
                 if k in r and ".mro()" not in r[k][0] and "__mro__" not in r[k][0]:
                     bad.append(f"`{k}` is inherited from `{r[k][0]}` rather than from the nearest ancestor along the MRO")
     rep.oblige(rule, "SpecClassMetadata.for_class", not bad, "; ".join(sorted(set(bad))[:2]))
@@ -790,6 +838,14 @@ def parent_kwargs_init_only(ctx, rep: Report, rule: str):
     fi = core_impl(ctx.H, "init").impl
     n = 0
     bad = []
+    # the dictionary handed to the parent constructor: `<parent>.__init__(self, **<dict>)`
+    dict_names = set()
+    for g in with_callees(ctx.p, fi, 1):
+        for c_ in ast.walk(g.node):
+            if isinstance(c_, ast.Call) and isinstance(c_.func, ast.Attribute) and c_.func.attr == "__init__":
+                dict_names |= {k_.value.id for k_ in c_.keywords if k_.arg is None and isinstance(k_.value, ast.Name)}
+    if not dict_names:
+        raise AnalysisError(f"{rule}: no `<parent>.__init__(self, **kwargs)` call found")
     for g in with_callees(ctx.p, fi, 1):
         if g is not fi and not g.module.name.startswith(ctx.p.package + ".methods"):
             continue
@@ -797,7 +853,7 @@ def parent_kwargs_init_only(ctx, rep: Report, rule: str):
             if not isinstance(loop, ast.For):
                 continue
             stores = [s for s in ast.walk(loop) if isinstance(s, ast.Assign) and isinstance(s.targets[0], ast.Subscript)
-                      and ast.unparse(s.targets[0].value) == "parent_kwargs" and ast.unparse(s.targets[0].slice) == ast.unparse(loop.target)]
+                      and ast.unparse(s.targets[0].value) in dict_names and ast.unparse(s.targets[0].slice) == ast.unparse(loop.target)]
             if not stores:
                 continue
             for s in stores:
